@@ -177,4 +177,17 @@ CLAIMS['C15'] = dict(
     note=('relative to: clang-14 lowering, STIR, C14 R14.1 for what the tables accept; base64 tail bounds undecided (stated in DESIGN.md and '
           'in the evidence as `undecided`)'),
     technique='static analysis: abstract interpretation with oracle byte classes, sign-test dominance, inferred affine loop invariants, witness search')
+CLAIMS['C09'] = dict(
+    level='other',
+    text=('The five searching loops (split x3, the two scans of replace) are summarised per iteration by abstract interpretation with the '
+          'search primitive as a symbol (match inside the haystack or none). Machine-checked step facts: the needle handed to the '
+          'search is never empty (an empty separator / pattern leaves the text whole); the next search starts at match + length of the '
+          'needle searched for; split emits the piece [cursor, match) and decrements max_splits once per piece, the final piece reaches '
+          'the end; the sizing scan of replace adds |to|-|from| (mod 2^64) per occurrence and the copying scan copies the gap then `to` '
+          'and advances the output by gap+|to|, both scans issuing the same search; tokenize emits only non-empty ranges of the string, '
+          'tests delimiters with find_cs on the whole set and never reads outside [0,size]. The overloads are shown to forward to the cores. '
+          'Decided: these step facts. Not decided: that the search returns the FIRST match (C07), join (a plain concatenation loop), and the '
+          'induction from steps to whole-string equations, which is stated in DESIGN.md but not mechanised.'),
+    note=('relative to: clang-14 lowering, STIR, C05, C07; a codec that tests delimiters by other means than find_cs is reported undecided'),
+    technique='static analysis: per-iteration loop summaries by abstract interpretation over LLVM IR (widening + verified invariants), sibling agreement of the two replace scans')
 NOT_APPLICABLE = {}
